@@ -3,6 +3,7 @@ import CobyqaVerif.Props.C04
 import CobyqaVerif.Alg.Tcg
 import CobyqaVerif.Alg.TcgImproveFast
 import CobyqaVerif.Alg.Ctcg
+import CobyqaVerif.Alg.Ntcg
 import CobyqaVerif.Alg.Cauchy
 import CobyqaVerif.Alg.CauchyDir
 import CobyqaVerif.Alg.Spider
@@ -369,6 +370,77 @@ def doCtcg (n m p fuel : ℕ) (parts : List String) : String :=
     | _, _, _, _, _, _, _, _ => "bad-op"
   | _ => "bad-op"
 
+/-- the UNVERIFIED proposal for the projection of a pair (variables, slacks) onto the null space of the working
+constraints of the normal subproblem (rows `[A_j, -e_j]` of the working inequalities, `[0, -e_j]` of the slacks at
+zero, `[-e_i, 0]` / `[e_i, 0]` of the bounds); used through `Ntcg.checkedProjN` -/
+def proposeProjN {n m : ℕ} (aub : Matrix (Fin m) (Fin n) Rat)
+    (fl fu : Fin n → Bool) (fs fb : Fin m → Bool) (v : (Fin n → Rat) × (Fin m → Rat)) : (Fin n → Rat) × (Fin m → Rat) :=
+  -- the extended space as Fin (n + m)
+  let emb : (Fin n → Rat) × (Fin m → Rat) → (Fin (n + m) → Rat) := fun w k =>
+    if h : k.val < n then w.1 ⟨k.val, h⟩ else if h2 : k.val - n < m then w.2 ⟨k.val - n, h2⟩ else 0
+  let rows : List (Fin (n + m) → Rat) :=
+    (((listFin m).filter fun j => !fb j).map fun j => emb (fun i => aub j i, fun k => if k = j then -1 else 0)) ++
+    (((listFin m).filter fun j => !fs j).map fun j => emb (fun _ => 0, fun k => if k = j then -1 else 0)) ++
+    (((listFin n).filter fun i => !(fl i && fu i)).map fun i => emb (fun k => if k = i then 1 else 0, fun _ => 0))
+  let us := gramSchmidt rows
+  let r := us.foldl (fun acc u => Cobyqa.Tcg.memo (acc - ((acc ⬝ᵥ u) / (u ⬝ᵥ u)) • u)) (Cobyqa.Tcg.memo (emb v))
+  (fun i => r ⟨i.val, by omega⟩, fun j => r ⟨n + j.val, by omega⟩)
+
+def rankOfN {n m : ℕ} (aub : Matrix (Fin m) (Fin n) Rat) (fl fu : Fin n → Bool) (fs fb : Fin m → Bool) : ℕ :=
+  let emb : (Fin n → Rat) × (Fin m → Rat) → (Fin (n + m) → Rat) := fun w k =>
+    if h : k.val < n then w.1 ⟨k.val, h⟩ else if h2 : k.val - n < m then w.2 ⟨k.val - n, h2⟩ else 0
+  let rows : List (Fin (n + m) → Rat) :=
+    (((listFin m).filter fun j => !fb j).map fun j => emb (fun i => aub j i, fun k => if k = j then -1 else 0)) ++
+    (((listFin m).filter fun j => !fs j).map fun j => emb (fun _ => 0, fun k => if k = j then -1 else 0)) ++
+    (((listFin n).filter fun i => !(fl i && fu i)).map fun i => emb (fun k => if k = i then 1 else 0, fun _ => 0))
+  (gramSchmidt rows).length
+
+/-- `Alg/Ntcg.lean nloop`, pass by pass on re-tabulated (extensionally equal) states; see `runCtcgPasses` -/
+def runNtcgPasses {n m p : ℕ} (P : Cobyqa.Ntcg.NProb n m p Rat) (Q : Cobyqa.Ntcg.NParams n m Rat) (O : Cobyqa.Ntcg.NOracle n m Rat)
+    (fuel : ℕ) (stepA gsA : Array Rat) (gtA sdsA sdtA : Array Rat) (flA fuA fsA fbA : Array Bool) (residA : Array Rat) (k : ℕ) (reduct : Rat) :
+    Cobyqa.Ntcg.NSt n m Rat :=
+  let s : Cobyqa.Ntcg.NSt n m Rat :=
+    { step := fun i => stepA[i.val]!, gs := fun i => gsA[i.val]!, gt := fun j => gtA[j.val]!, sds := fun i => sdsA[i.val]!,
+      sdt := fun j => sdtA[j.val]!, freeL := fun i => flA[i.val]!, freeU := fun i => fuA[i.val]!, freeSlack := fun j => fsA[j.val]!,
+      freeUb := fun j => fbA[j.val]!, resid := fun j => residA[j.val]!, k := k, reduct := reduct }
+  match fuel with
+  | 0 => s
+  | fuel' + 1 =>
+    if s.k + O.nAct s.freeL s.freeU s.freeSlack s.freeUb < n + m then
+      match Cobyqa.Ntcg.niter P Q O s with
+      | .inl t => runNtcgPasses P Q O fuel' (Array.ofFn t.step) (Array.ofFn t.gs) (Array.ofFn t.gt) (Array.ofFn t.sds) (Array.ofFn t.sdt)
+          (Array.ofFn t.freeL) (Array.ofFn t.freeU) (Array.ofFn t.freeSlack) (Array.ofFn t.freeUb) (Array.ofFn t.resid) t.k t.reduct
+      | .inr t => t
+    else s
+
+/-- `ntcg n m p fuel | xl ; xu ; aub ; bub ; aeq ; beq ; delta`: the first phase of `normal_byrd_omojokun`
+(Alg/Ntcg.lean `ntcg`) with the checked exact projection -/
+def doNtcg (n m p fuel : ℕ) (parts : List String) : String :=
+  match parts with
+  | [lo, hi, A, b, E, e, d] =>
+    match optsOf lo, optsOf hi, ratsOf A, ratsOf b, ratsOf E, ratsOf e, ratsOf d with
+    | some lo, some hi, some A, some b, some E, some e, some d =>
+      if lo.size ≠ n || hi.size ≠ n || A.size ≠ m * n || b.size ≠ m || E.size ≠ p * n || e.size ≠ p || d.size ≠ 1 then "bad-op" else
+      let P : Cobyqa.Ntcg.NProb n m p Rat :=
+        { xl := fun i => lo[i.val]!, xu := fun i => hi[i.val]!, aub := fun j i => A[j.val * n + i.val]!, bub := fun j => b[j.val]!,
+          aeq := fun k i => E[k.val * n + i.val]!, beq := fun k => e[k.val]!, delta := d[0]! }
+      let eps : Rat := 1 / 2 ^ 52
+      let t0 : Fin m → Rat := fun j => max 0 (-P.bub j)
+      let deltaSlack : Rat := floatToRat (Float.sqrt (ratToFloat (P.beq ⬝ᵥ P.beq + t0 ⬝ᵥ t0)))
+      let Q : Cobyqa.Ntcg.NParams n m Rat :=
+        { aTr := Cobyqa.Ntcg.checkedATrN P.delta (proposeATr n P.delta),
+          aTrSlack := Cobyqa.Ntcg.slackATr (proposeATr m deltaSlack),
+          descThr := fun g t => 10 * eps * n * max 1 (floatToRat (Float.sqrt (ratToFloat (g ⬝ᵥ g + t ⬝ᵥ t))) * (1 + 1 / 2 ^ 40)),
+          tiny := 0, rtol := 1 / 100000000 }
+      let O : Cobyqa.Ntcg.NOracle n m Rat :=
+        { proj := Cobyqa.Ntcg.checkedProjN P (proposeProjN P.aub), nAct := rankOfN P.aub }
+      let s0 := Cobyqa.Ntcg.ninit P O
+      let st := (runNtcgPasses P Q O fuel (Array.ofFn s0.step) (Array.ofFn s0.gs) (Array.ofFn s0.gt) (Array.ofFn s0.sds) (Array.ofFn s0.sdt)
+        (Array.ofFn s0.freeL) (Array.ofFn s0.freeU) (Array.ofFn s0.freeSlack) (Array.ofFn s0.freeUb) (Array.ofFn s0.resid) s0.k s0.reduct).step
+      "ok " ++ " ".intercalate ((listFin n).map fun i => showRat (st i))
+    | _, _, _, _, _, _, _ => "bad-op"
+  | _ => "bad-op"
+
 /-- `tcg2 n fuel fuel2 improve | ...`: `tangential_byrd_omojokun` as a whole (Alg/TcgImprove.lean `tcgFull`); the answer
 starts with `ok1` when the first phase ended on the trust-region boundary -/
 def doTcg2 (n fuel fuel2 : ℕ) (imp : Bool) (parts : List String) : String :=
@@ -451,6 +523,10 @@ def handleAlg (line : String) : String :=
     | ["kkt", n, m, me, r] => match n.toNat?, m.toNat?, me.toNat?, r.toNat? with
       | some n, some m, some me, some r => doKkt n m me r parts | _, _, _, _ => "bad-op"
     | ["tcg", n, fuel] => match n.toNat?, fuel.toNat? with | some n, some f => doTcg n f parts | _, _ => "bad-op"
+    | ["ntcg", n, m, p, fuel] =>
+      match n.toNat?, m.toNat?, p.toNat?, fuel.toNat? with
+      | some n, some m, some p, some f => doNtcg n m p f parts
+      | _, _, _, _ => "bad-op"
     | ["ctcg", n, m, p, fuel] =>
       match n.toNat?, m.toNat?, p.toNat?, fuel.toNat? with
       | some n, some m, some p, some f => doCtcg n m p f parts
